@@ -145,6 +145,11 @@ type BoundSummary struct {
 	// LenParams: len(result) <= len(param i).
 	LenParams []int
 	Why       string
+	// Alts: when the returns of the function are bounded in different ways
+	// (one by the list it was given, another by a limit), one summary per
+	// return: the result obeys one of them, and the caller joins what they
+	// mean for its own arguments.
+	Alts []*BoundSummary
 }
 
 // ParamPath names an int parameter or an int field of a struct parameter.
@@ -207,6 +212,44 @@ func (c *bctx) of(v ssa.Value, d int) Bounds {
 func (c *bctx) limKey(v ssa.Value) string {
 	if pp, ok := limitParam(c, v); ok {
 		return "param:" + pp.p.Name() + "." + pp.field
+	}
+	// a field of a struct value held in a register (options := build(...);
+	// options.Limit): named by the value and the field, however it is read
+	switch x := v.(type) {
+	case valueField:
+		return "field:" + c.f.E(x.sv) + "." + x.field
+	case *ssa.Field:
+		if _, isCall := x.X.(*ssa.Call); isCall {
+			return "field:" + c.f.E(x.X) + "." + ssau.FieldName(x)
+		}
+	case *ssa.UnOp:
+		if fa, ok := x.X.(*ssa.FieldAddr); ok && x.Op == token.MUL {
+			if cell, ok := fa.X.(*ssa.Alloc); ok {
+				// the cell holds nothing but one call's result
+				var call *ssa.Call
+				n := 0
+				for _, ref := range *cell.Referrers() {
+					switch r := ref.(type) {
+					case *ssa.Store:
+						if r.Addr == ssa.Value(cell) {
+							n++
+							call, _ = r.Val.(*ssa.Call)
+						}
+					case *ssa.FieldAddr:
+						for _, r2 := range *r.Referrers() {
+							if st, ok := r2.(*ssa.Store); ok && st.Addr == ssa.Value(r) {
+								n += 2
+							}
+						}
+					}
+				}
+				if n == 1 && call != nil {
+					if fv, ok := c.fieldOf(call, ssau.FieldName(fa)).(valueField); ok {
+						return c.limKey(fv)
+					}
+				}
+			}
+		}
 	}
 	// a load of a field of a local struct that was initialised once from a
 	// literal: name the value the literal gave that field
@@ -582,6 +625,22 @@ func (c *bctx) call(call *ssa.Call, idx int, d int) Bounds {
 
 func (c *bctx) callee(call *ssa.Call, cal *ssa.Function, idx int, d int) Bounds {
 	sum := c.e.BoundSummaryOf(cal, idx)
+	if len(sum.Alts) > 0 {
+		var acc Bounds
+		for i, alt := range sum.Alts {
+			b := c.applySummary(call, cal, alt, d)
+			if i == 0 {
+				acc = b
+			} else {
+				acc = meet(acc, b)
+			}
+		}
+		return acc
+	}
+	return c.applySummary(call, cal, sum, d)
+}
+
+func (c *bctx) applySummary(call *ssa.Call, cal *ssa.Function, sum *BoundSummary, d int) Bounds {
 	if sum.Empty {
 		return Bounds{Empty: true}
 	}
@@ -694,9 +753,12 @@ func (c *bctx) fieldOf(sv ssa.Value, name string) ssa.Value {
 				fv = c.fieldOf(arg, pf.field)
 			}
 			if fv == nil || (out != nil && c.limKey(out) != c.limKey(fv)) {
-				return nil
+				return valueField{sv, name}
 			}
 			out = fv
+		}
+		if out == nil {
+			return valueField{sv, name}
 		}
 		return out
 	}
@@ -743,6 +805,9 @@ func (c *bctx) fieldOf(sv ssa.Value, name string) ssa.Value {
 		if ld, ok := whole[0].Val.(*ssa.UnOp); ok {
 			return c.fieldOf(ld, name)
 		}
+		if call, ok := whole[0].Val.(*ssa.Call); ok {
+			return c.fieldOf(call, name) // options := buildOptions(...)
+		}
 		return nil
 	}
 	if len(stores) == 1 && (u == nil || ssau.Dominates(stores[0], u)) {
@@ -774,6 +839,20 @@ type paramField struct {
 
 func (p paramField) Name() string { return p.Parameter.Name() + "." + p.field }
 
+// valueField names field `field` of a struct value held in a register (the
+// result of a call): the value is immutable, so the name denotes one number.
+type valueField struct {
+	sv    ssa.Value
+	field string
+}
+
+func (vf valueField) Name() string                  { return vf.sv.Name() + "." + vf.field }
+func (vf valueField) String() string                { return vf.Name() }
+func (vf valueField) Type() types.Type              { return types.Typ[types.Int] }
+func (vf valueField) Parent() *ssa.Function         { return vf.sv.Parent() }
+func (vf valueField) Referrers() *[]ssa.Instruction { return nil }
+func (vf valueField) Pos() token.Pos                { return vf.sv.Pos() }
+
 type cellField struct {
 	f     *symx.Fn
 	at    *ssa.UnOp
@@ -800,22 +879,42 @@ func (e *Engine) BoundSummaryOf(fn *ssa.Function, idx int) *BoundSummary {
 	defer delete(e.boundBusy, fn)
 	c := &bctx{e: e, fn: fn, f: e.Sx.Of(fn), memo: map[ssa.Value]Bounds{}, busy: map[ssa.Value]bool{}}
 	var acc Bounds
+	var per []Bounds
 	first := true
 	for _, ret := range ssau.ReturnsOf(fn) {
 		if idx >= len(ret.Results) {
 			continue
 		}
 		b := c.at(ssau.ResultValue(ret, idx), nil, ret.Block(), 0)
+		per = append(per, b)
 		if first {
 			acc, first = b, false
 		} else {
 			acc = meet(acc, b)
 		}
 	}
-	s := &BoundSummary{Empty: acc.Empty, Why: acc.Why}
+	s := c.summarise(acc)
 	if first {
 		s.Why = "no return"
 	}
+	if !s.Empty && len(s.LimitParams) == 0 && len(s.LenParams) == 0 && len(per) > 1 {
+		for _, b := range per {
+			if a := c.summarise(b); a.Empty || len(a.LimitParams) > 0 || len(a.LenParams) > 0 {
+				s.Alts = append(s.Alts, a)
+			} else {
+				s.Alts = nil
+				break
+			}
+		}
+	}
+	e.boundSum[fn] = s
+	return s
+}
+
+// summarise expresses bounds of a value of c.fn over the function's parameters.
+func (c *bctx) summarise(acc Bounds) *BoundSummary {
+	fn := c.fn
+	s := &BoundSummary{Empty: acc.Empty, Why: acc.Why}
 	pidx := func(p *ssa.Parameter) int {
 		for i, q := range fn.Params {
 			if q == p {
@@ -846,7 +945,6 @@ func (e *Engine) BoundSummaryOf(fn *ssa.Function, idx int) *BoundSummary {
 	}
 	sort.Slice(s.LimitParams, func(i, j int) bool { return s.LimitParams[i].Param < s.LimitParams[j].Param })
 	sort.Ints(s.LenParams)
-	e.boundSum[fn] = s
 	return s
 }
 
